@@ -486,3 +486,281 @@ Proof.
     + intros _. cbn [sched]. auto.
   - exists s, rejected. split; [reflexivity|]. split; [exact I|]. split; [reflexivity|]. split; [auto|discriminate].
 Qed.
+
+(* ================================================================= *)
+(* 5. runs                                                           *)
+(* ================================================================= *)
+
+Lemma ob_out_mk_obs s s1 o : ob_out (mk_obs s s1 o) = o.
+Proof. unfold mk_obs. destruct (o_st o =? 0); reflexivity. Qed.
+
+(* no history ever reaches an Err outcome (out-of-bounds / fuel): c12_no_crash for the manual API *)
+Lemma run_from_ok ops : forall s, inv s ->
+  exists os s', run_from s ops = (os, Some s') /\ inv s' /\ length os = length ops.
+Proof.
+  induction ops as [|x t IH]; intros s I; cbn [run_from].
+  - exists [], s. auto.
+  - destruct (step_ok s x I) as (s1 & o & E & I1 & _).
+    rewrite E. cbn [fst snd].
+    destruct (IH s1 I1) as (os & s' & E' & I' & L). rewrite E'.
+    exists (mk_obs s s1 o :: os), s'. cbn [length]. auto.
+Qed.
+
+Lemma run_split pre : forall s x post os s', run_from s (pre ++ x :: post) = (os, Some s') ->
+  exists os1 s1 s2 o os2, run_from s pre = (os1, Some s1) /\ step s1 x = Ok (s2, o) /\
+                          run_from s2 post = (os2, Some s') /\ os = os1 ++ mk_obs s1 s2 o :: os2.
+Proof.
+  induction pre as [|y pre IH]; intros s x post os s' E.
+  - cbn [app run_from] in E. destruct (step s x) as [[s2 o]| |] eqn:ES; try (inversion E; fail).
+    cbn [fst snd] in E. destruct (run_from s2 post) as [os2 e] eqn:ER. inversion E; subst.
+    exists [], s, s2, o, os2. cbn [run_from app]. auto.
+  - cbn [app run_from] in E. destruct (step s y) as [[sy oy]| |] eqn:ES; try (inversion E; fail).
+    cbn [fst snd] in E. destruct (run_from sy (pre ++ x :: post)) as [os' e] eqn:ER. inversion E; subst.
+    destruct (IH sy x post os' s' ER) as (os1 & s1 & s2 & o & os2 & E1 & E2 & E3 & E4).
+    exists (mk_obs s sy oy :: os1), s1, s2, o, os2. cbn [run_from]. rewrite ES. cbn [fst snd]. rewrite E1.
+    subst os'. auto.
+Qed.
+
+Lemma run_inv ops : forall s os s', inv s -> run_from s ops = (os, Some s') -> inv s'.
+Proof.
+  intros s os s' I E. destruct (run_from_ok ops s I) as (os2 & s2 & E2 & I2 & _).
+  rewrite E in E2. inversion E2; subst. exact I2.
+Qed.
+
+Definition reachable (s : st) : Prop := exists ops os, run_from st0 ops = (os, Some s).
+
+Lemma reachable_inv s : reachable s -> inv s.
+Proof. intros (ops & os & E). eapply run_inv; [apply inv_st0|exact E]. Qed.
+
+(* --- what a history scheduled, what it completed --- *)
+Definition accepted (x : op) (o : obs) : list entry :=
+  match x with
+  | OSchedule pid id tp | OSleep pid id tp => if o_st (ob_out o) =? 0 then [mkE tp (Some pid) id] else []
+  | _ => []
+  end.
+
+Fixpoint sched_run (ops : list op) (os : list obs) : list entry :=
+  match ops, os with
+  | x :: t, o :: u => accepted x o ++ sched_run t u
+  | _, _ => []
+  end.
+
+Definition events_run (os : list obs) : list (entry * how) := flat_map (fun o => o_evs (ob_out o)) os.
+Definition completed_run (os : list obs) : list entry := map fst (events_run os).
+
+Lemma events_run_cons o os : events_run (o :: os) = o_evs (ob_out o) ++ events_run os.
+Proof. reflexivity. Qed.
+
+Lemma step_conserves s x s' o : inv s -> step s x = Ok (s', o) ->
+  Permutation (accepted x (mk_obs s s' o) ++ pending (sched s)) (map fst (o_evs o) ++ pending (sched s')).
+Proof.
+  intros I E. destruct (step_ok s x I) as (s2 & o2 & E2 & I2 & FE & SP & DEAD).
+  rewrite E in E2. inversion E2; subst s2 o2. clear E2.
+  unfold accepted. rewrite ob_out_mk_obs.
+  destruct (alive s) eqn:A.
+  - specialize (SP eq_refl). clear DEAD.
+    destruct x as [pid id tp|pid id tp|now|id|id|id c| |]; cbn [spec_step] in SP.
+    1,2: destruct SP as [[-> ->]|[-> P]]; cbn [o_st rejected o_evs map app Z.eqb]; [reflexivity|symmetry; exact P].
+    + destruct SP as [(t & -> & IT & DUE & MIN & P)|[(tp & -> & _ & _ & _ & P)|(-> & E0 & E1)]];
+        cbn [o_evs map fst app]; [exact P|exact P|rewrite E0, E1; reflexivity].
+    + destruct SP as [(t & -> & IT & EI & P)|(-> & _ & P)]; cbn [o_evs map fst app]; exact P.
+    + destruct SP as [(t & -> & IT & EI & P)|(-> & _ & P)]; cbn [o_evs map fst app]; exact P.
+    + destruct SP as [(t & -> & IT & EI & P)|(-> & _ & P)]; cbn [o_evs map fst app]; exact P.
+    + destruct SP as (-> & ->). cbn [o_evs app]. rewrite map_map. cbn [fst]. rewrite map_id, app_nil_r. reflexivity.
+    + destruct SP as (-> & ->). reflexivity.
+  - destruct (DEAD eq_refl) as (-> & ->). cbn [rejected o_st o_evs map app].
+    destruct x; reflexivity.
+Qed.
+
+Lemma perm_glue {A} (a b c d e f g : list A) :
+  Permutation (a ++ c) (d ++ e) -> Permutation (b ++ e) (f ++ g) -> Permutation ((a ++ b) ++ c) ((d ++ f) ++ g).
+Proof.
+  intros H1 H2. rewrite <- app_assoc. rewrite Permutation_app_swap_app. rewrite H1.
+  rewrite Permutation_app_swap_app. rewrite H2. rewrite app_assoc. reflexivity.
+Qed.
+
+(* conservation: scheduled ⊎ pending-before = completed ⊎ pending-after *)
+Lemma run_conserves ops : forall s os s', inv s -> run_from s ops = (os, Some s') ->
+  Permutation (sched_run ops os ++ pending (sched s)) (completed_run os ++ pending (sched s')).
+Proof.
+  induction ops as [|x t IH]; intros s os s' I E; cbn [run_from] in E.
+  - inversion E; subst. reflexivity.
+  - destruct (step s x) as [[s1 o]| |] eqn:ES; try (inversion E; fail).
+    cbn [fst snd] in E. destruct (run_from s1 t) as [os1 e] eqn:ER. inversion E; subst. clear E.
+    assert (inv s1) as I1.
+    { destruct (step_ok s x I) as (s2 & o2 & E2 & I2 & _). rewrite ES in E2. inversion E2; subst. exact I2. }
+    specialize (IH s1 os1 s' I1 ER).
+    pose proof (step_conserves s x s1 o I ES) as SC.
+    cbn [sched_run]. unfold completed_run in *. rewrite events_run_cons, map_app, ob_out_mk_obs.
+    apply (perm_glue _ _ _ _ _ _ _ SC IH).
+Qed.
+
+(* --- completion events of one call come from the pending multiset; futures change accordingly --- *)
+Lemma step_events_pending s x s' o : inv s -> step s x = Ok (s', o) ->
+  forall ev, In ev (o_evs o) -> In (fst ev) (pending (sched s)).
+Proof.
+  intros I E. destruct (step_ok s x I) as (s2 & o2 & E2 & I2 & FE & SP & DEAD).
+  rewrite E in E2. inversion E2; subst s2 o2. clear E2.
+  destruct (alive s) eqn:A.
+  - specialize (SP eq_refl).
+    assert (forall id h, rm_spec (pending (sched s)) id h o (pending (sched s')) ->
+            forall ev, In ev (o_evs o) -> In (fst ev) (pending (sched s))) as RM.
+    { intros id h [(t & -> & IT & _)|(-> & _)] ev; cbn [o_evs]; [intros [<-|[]]; exact IT|intros []]. }
+    destruct x as [pid id tp|pid id tp|now|id|id|id c| |]; cbn [spec_step] in SP; eauto.
+    1,2: destruct SP as [[-> _]|[-> _]]; intros ev [].
+    + destruct SP as [(t & -> & IT & _)|[(tp & -> & _)|(-> & _)]]; intros ev; cbn [o_evs];
+        [intros [<-|[]]; exact IT|intros []|intros []].
+    + destruct SP as (-> & _). intros ev. cbn [o_evs]. rewrite in_map_iff. intros (e & <- & IE). exact IE.
+    + destruct SP as (-> & _). intros ev [].
+  - destruct (DEAD eq_refl) as (_ & ->). intros ev [].
+Qed.
+
+Lemma fold_complete_other evs : forall f p, (forall ev, In ev evs -> e_p (fst ev) <> Some p) ->
+  get (fold_left complete evs f) p = get f p.
+Proof.
+  induction evs as [|ev evs IH]; intros f p H; cbn [fold_left]; [reflexivity|].
+  rewrite IH by (intros ev' I'; apply H; right; exact I').
+  unfold complete. destruct (e_p (fst ev)) as [q|] eqn:EQ; [|reflexivity].
+  apply get_put_other. intros ->. apply (H ev); [left; reflexivity|exact EQ].
+Qed.
+
+Lemma sched_accept_fresh s x s' o : step s x = Ok (s', o) -> o_st o = 0 ->
+  forall e, In e (accepted x (mk_obs s s' o)) -> exists p, e_p e = Some p /\ get (futs s) p = None /\ get (futs s') p = Some FPending.
+Proof.
+  intros E OS e. unfold accepted. rewrite ob_out_mk_obs. rewrite OS. cbn [Z.eqb].
+  unfold step in E. destruct (alive s); cbn [negb] in E; [|inversion E; subst; discriminate].
+  destruct x as [pid id tp|pid id tp|now|id|id|id c| |]; try (intros []; fail).
+  all: intros [<-|[]]; exists pid; cbn [e_p]; destruct (get (futs s) pid) eqn:G;
+    inversion E; subst; [discriminate|cbn [futs]; rewrite get_put_same; auto].
+Qed.
+
+(* a future that is no longer pending is never touched again; a fresh one stays untouched until scheduled *)
+Lemma step_stable s x s' o : inv s -> step s x = Ok (s', o) ->
+  forall p v, get (futs s) p = Some v -> v <> FPending -> get (futs s') p = Some v.
+Proof.
+  intros I E p v G NP.
+  destruct (step_ok s x I) as (s2 & o2 & E2 & I2 & FE & SP & DEAD).
+  rewrite E in E2. inversion E2; subst s2 o2. clear E2.
+  assert (get (fold_left complete (o_evs o) (futs s)) p = Some v) as GEN.
+  { rewrite fold_complete_other; [exact G|].
+    intros ev IE Q. pose proof (step_events_pending s x s' o I E ev IE) as IP.
+    assert (In p (ppids (sched s))) as PP.
+    { rewrite <- ppids_pending. apply In_ppids. eauto. }
+    apply (inv_pend s I) in PP. congruence. }
+  destruct x as [pid id tp|pid id tp|now|id|id|id c| |]; cbn [futs_effect] in FE; try (rewrite FE; exact GEN).
+  all: destruct (o_st o =? 0) eqn:OS; [|rewrite FE; exact G].
+  all: rewrite FE; rewrite get_put_other; [exact G|]; intros <-.
+  all: match goal with |- False =>
+         edestruct (sched_accept_fresh s _ s' o E ltac:(lia)) as (q & EQ & GN & _);
+           [unfold accepted; rewrite ob_out_mk_obs, OS; left; reflexivity|]; cbn [e_p] in EQ; inversion EQ; subst; congruence end.
+Qed.
+
+Lemma step_used s x s' o : inv s -> step s x = Ok (s', o) ->
+  forall p, get (futs s) p <> None -> get (futs s') p <> None.
+Proof.
+  intros I E p G.
+  destruct (get (futs s) p) as [v|] eqn:GV; [|congruence].
+  destruct v; try (erewrite step_stable; eauto; discriminate).
+  (* pending: still in the array, or completed now *)
+  destruct (step_ok s x I) as (s2 & o2 & E2 & I2 & FE & SP & DEAD).
+  rewrite E in E2. inversion E2; subst s2 o2. clear E2.
+  assert (forall evs f, get f p <> None -> get (fold_left complete evs f) p <> None) as GEN.
+  { induction evs as [|ev evs IH]; intros f F; cbn [fold_left]; [exact F|]. apply IH.
+    unfold complete. destruct (e_p (fst ev)) as [q|]; [|exact F].
+    destruct (Nat.eq_dec q p) as [->|N]; [rewrite get_put_same; discriminate|rewrite get_put_other by exact N; exact F]. }
+  assert (get (futs s) p <> None) as G0 by congruence.
+  destruct x as [pid id tp|pid id tp|now|id|id|id c| |]; cbn [futs_effect] in FE; try (rewrite FE; apply GEN; exact G0).
+  all: destruct (o_st o =? 0) eqn:OS; [|rewrite FE; exact G0].
+  all: rewrite FE; destruct (Nat.eq_dec pid p) as [->|N]; [rewrite get_put_same; discriminate|rewrite get_put_other by exact N; exact G0].
+Qed.
+
+Lemma step_event_status s x s' o : inv s -> step s x = Ok (s', o) ->
+  forall t h p, In (t, h) (o_evs o) -> e_p t = Some p -> get (futs s') p = Some (stat_of h).
+Proof.
+  intros I E t h p IE EP.
+  destruct (step_ok s x I) as (s2 & o2 & E2 & I2 & FE & SP & DEAD).
+  rewrite E in E2. inversion E2; subst s2 o2. clear E2.
+  destruct (alive s) eqn:A.
+  2:{ destruct (DEAD eq_refl) as (_ & ->). destruct IE. }
+  specialize (SP eq_refl).
+  assert (forall id h0, rm_spec (pending (sched s)) id h0 o (pending (sched s')) ->
+          futs s' = fold_left complete (o_evs o) (futs s) -> get (futs s') p = Some (stat_of h)) as RM.
+  { intros id h0 [(t0 & -> & _)|(-> & _)] F; cbn [o_evs] in *; [|destruct IE].
+    destruct IE as [Q|[]]. inversion Q; subst. rewrite F. cbn [fold_left].
+    rewrite (complete_live _ _ _ _ EP). apply get_put_same. }
+  destruct x as [pid id tp|pid id tp|now|id|id|id c| |]; cbn [spec_step futs_effect] in SP, FE; eauto.
+  1,2: destruct SP as [[-> _]|[-> _]]; destruct IE.
+  - destruct SP as [(t0 & -> & _)|[(tp & -> & _)|(-> & _)]]; cbn [o_evs] in *; try (destruct IE; fail).
+    destruct IE as [Q|[]]. inversion Q; subst. rewrite FE. cbn [fold_left].
+    rewrite (complete_live _ _ _ _ EP). apply get_put_same.
+  - destruct SP as (-> & _). cbn [o_evs] in *. rewrite FE. rewrite fold_complete_destroy.
+    apply in_map_iff in IE. destruct IE as (e & Q & IE). inversion Q; subst.
+    destruct (in_dec Nat.eq_dec p (ppids (pending (sched s)))) as [J|J]; [reflexivity|].
+    exfalso. apply J. apply In_ppids. eauto.
+  - destruct SP as (-> & _). destruct IE.
+Qed.
+
+Lemma run_stable ops : forall s os s', inv s -> run_from s ops = (os, Some s') ->
+  forall p v, get (futs s) p = Some v -> v <> FPending -> get (futs s') p = Some v.
+Proof.
+  induction ops as [|x t IH]; intros s os s' I E p v G NP; cbn [run_from] in E.
+  - inversion E; subst. exact G.
+  - destruct (step s x) as [[s1 o]| |] eqn:ES; try (inversion E; fail).
+    cbn [fst snd] in E. destruct (run_from s1 t) as [os1 e] eqn:ER. inversion E; subst. clear E.
+    assert (inv s1) as I1.
+    { destruct (step_ok s x I) as (s2 & o2 & E2 & I2 & _). rewrite ES in E2. inversion E2; subst. exact I2. }
+    apply (IH s1 os1 s' I1 ER p v); [|exact NP]. apply (step_stable s x s1 o I ES p v G NP).
+Qed.
+
+(* every completion event fixes the final state of its future: value for expiry / remove, the given exception
+   for cancel, "no value" (await_canceled_exception on access) for destruction *)
+Lemma run_event_status ops : forall s os s', inv s -> run_from s ops = (os, Some s') ->
+  forall t h p, In (t, h) (events_run os) -> e_p t = Some p -> get (futs s') p = Some (stat_of h).
+Proof.
+  induction ops as [|x tl IH]; intros s os s' I E t h p IE EP; cbn [run_from] in E.
+  - inversion E; subst. destruct IE.
+  - destruct (step s x) as [[s1 o]| |] eqn:ES; try (inversion E; fail).
+    cbn [fst snd] in E. destruct (run_from s1 tl) as [os1 e] eqn:ER. inversion E; subst. clear E.
+    assert (inv s1) as I1.
+    { destruct (step_ok s x I) as (s2 & o2 & E2 & I2 & _). rewrite ES in E2. inversion E2; subst. exact I2. }
+    rewrite events_run_cons, ob_out_mk_obs in IE. apply in_app_or in IE. destruct IE as [IE|IE].
+    + apply (run_stable tl s1 os1 s' I1 ER p (stat_of h)); [|apply stat_of_not_pending].
+      apply (step_event_status s x s1 o I ES t h p IE EP).
+    + apply (IH s1 os1 s' I1 ER t h p IE EP).
+Qed.
+
+(* promise ids accepted by a history are pairwise distinct *)
+Lemma run_fresh ops : forall s os s', inv s -> run_from s ops = (os, Some s') ->
+  NoDup (ppids (sched_run ops os)) /\
+  (forall p, In p (ppids (sched_run ops os)) -> get (futs s) p = None) /\
+  (forall p, get (futs s) p <> None -> get (futs s') p <> None).
+Proof.
+  induction ops as [|x t IH]; intros s os s' I E; cbn [run_from] in E.
+  - inversion E; subst. cbn [sched_run ppids flat_map]. split; [constructor|]. split; [intros p []|auto].
+  - destruct (step s x) as [[s1 o]| |] eqn:ES; try (inversion E; fail).
+    cbn [fst snd] in E. destruct (run_from s1 t) as [os1 e] eqn:ER. inversion E; subst. clear E.
+    assert (inv s1) as I1.
+    { destruct (step_ok s x I) as (s2 & o2 & E2 & I2 & _). rewrite ES in E2. inversion E2; subst. exact I2. }
+    destruct (IH s1 os1 s' I1 ER) as (ND & FR & MONO).
+    pose proof (step_used s x s1 o I ES) as SU.
+    cbn [sched_run]. unfold ppids. rewrite flat_map_app. fold (ppids (accepted x (mk_obs s s1 o))). fold (ppids (sched_run t os1)).
+    assert (forall p, In p (ppids (accepted x (mk_obs s s1 o))) ->
+                      ppids (accepted x (mk_obs s s1 o)) = [p] /\ get (futs s) p = None /\ get (futs s1) p = Some FPending) as ACC.
+    { intros p IP. apply In_ppids in IP. destruct IP as (e0 & I0 & EP0).
+      assert (o_st o = 0) as OS.
+      { unfold accepted in I0. rewrite ob_out_mk_obs in I0.
+        destruct x; try (destruct I0; fail); destruct (o_st o =? 0) eqn:Q; try (destruct I0; fail); lia. }
+      destruct (sched_accept_fresh s x s1 o ES OS e0 I0) as (q & EQ & G0 & G1).
+      assert (q = p) by congruence. subst q. split; [|auto].
+      unfold accepted in *. rewrite ob_out_mk_obs in *. rewrite OS in *. cbn [Z.eqb] in *.
+      destruct x; try (destruct I0; fail); destruct I0 as [<-|[]]; cbn [e_p] in EP0; inversion EP0; reflexivity. }
+    split; [|split].
+    + destruct (ppids (accepted x (mk_obs s s1 o))) as [|p l] eqn:EA; [exact ND|].
+      destruct (ACC p (or_introl eq_refl)) as (EQ & G0 & G1). inversion EQ; subst l. cbn [app].
+      constructor; [|exact ND]. intros Q. apply FR in Q. congruence.
+    + intros p IP. apply in_app_or in IP. destruct IP as [IP|IP].
+      * apply ACC. exact IP.
+      * apply FR in IP. destruct (get (futs s) p) eqn:G; [|reflexivity].
+        exfalso. apply (SU p); congruence.
+    + intros p G. apply MONO. apply SU. exact G.
+Qed.
